@@ -257,6 +257,9 @@ class ExprMixin:
             return ConstV(None)
         c = cons[-1]
         self.event('yield', node, value=v, consumer=c['node'])
+        if c.get('callback') is not None:
+            c['callback'](v)          # the consumer is the analysis itself (draining a generator into a list)
+            return ConstV(None)
         # run the consuming loop body in the consumer's frame
         saved_frames, saved_stack = self.frames, self.stack
         self.frames = saved_frames[:c['depth']]
@@ -822,6 +825,20 @@ class ExprMixin:
         from . import ext as _ext
         if isinstance(obj, TupleV) and name in getattr(obj, 'names', ()):
             return obj.items[obj.names.index(name)]
+        if isinstance(obj, TupleV) and getattr(obj, 'cls', None) is not None:
+            # a typing.NamedTuple subclass with its own methods / properties
+            r = obj.cls.lookup(name)
+            if r is not None and r[0] == 'method':
+                fi = r[1]
+                if fi.is_property:
+                    return self.call_function(fi, [], {}, self_obj=obj, node=node)
+                if fi.is_static:
+                    return FuncV(fi)
+                if fi.is_classmethod:
+                    return FuncV(fi, cls_obj=ClassV(obj.cls))
+                return FuncV(fi, self_obj=obj)
+            if r is not None and r[0] == 'attr' and name not in obj.cls.ann_fields:
+                return self.class_attr(r[2], name, r[1])
         if isinstance(obj, _ext.StructV):
             if name == 'size':
                 import struct as _st
@@ -998,6 +1015,16 @@ class ExprMixin:
                     raise Raised(ExcV(KeyError, [key], node=node, stack=self.stack, op=f'missing key {k!r}',
                                       definite=True))
                 return default if default is not None else ConstV(None)
+        rk = self.resolve(key)
+        if isinstance(rk, SymV) and not self.nofork and d.default is None and not d.open and not d.sym_stores and \
+                0 < len(d.items) <= 8 and all(isinstance(x, (str, int)) for x in d.items):
+            # a dispatch table indexed by a symbolic selector: one case per key, then the miss
+            for kk_ in list(d.items):
+                if self.equal(rk, self.from_py(kk_), node):
+                    return d.items[kk_]
+            if strict:
+                raise Raised(ExcV(KeyError, [key], node=node, stack=self.stack, op=f'missing key {rk!r}', definite=True))
+            return default if default is not None else ConstV(None)
         kk = self._seq_key(key) if isinstance(key, SeqV) else repr(key)
         if d.default is not None:
             mk = ('s', kk)
